@@ -668,6 +668,15 @@ def lift_float(x):
     raise HarnessError("unrecognised irrational float constant %r reached the symbolic engine" % x)
 
 
+def lift_angle(x):
+    """a float constant used as an angle: recognised constants as usual, anything else becomes a named
+    constant angle whose cos/sin atoms are enclosed to 1e-12 (Env._trig_base)."""
+    try:
+        return lift_float(x)
+    except HarnessError:
+        return SC(RV(Fraction(x)), ZERO, (cur()._const_lin(x), Lin()))
+
+
 def _unwrap(v):
     while isinstance(v, numpy.ndarray) and v.shape == ():
         v = v[()]
@@ -763,6 +772,8 @@ def _unary(name):
             return _ew(lambda v: getattr(SC.lift(v), name)(), xarr(x))
         if self.exact_consts:
             # exact evaluation of constants so that no irrational float is created
+            if name in ("cos", "sin", "tan") and isinstance(x, (float, numpy.floating)):
+                return getattr(lift_angle(float(x)), name)()
             if isinstance(x, numpy.ndarray):
                 return _ew(lambda v: getattr(SC.lift(v), name)(), x)
             if isinstance(x, (int, float, complex, numpy.number, Fraction)):
@@ -1480,6 +1491,7 @@ class Env:
             d = self.decl.get(sym)
             if d is not None and d.kind == "param":
                 self._link("trig", self.var(sym) / d.denom, c, s)
+                self.axioms.append(z3.Implies(self.var(sym) == 0, z3.And(c == 1, s == 0)))
             if d is not None and d.kind == "constangle":
                 x = d.value
                 for t, f in ((c, math.cos(x)), (s, math.sin(x))):
@@ -1768,6 +1780,77 @@ class Env:
                     changed = True
         return out
 
+    def let(self, x, prefix="let"):
+        """name a value: fresh variables constrained to equal x (a definitional extension, equisatisfiable).
+        Keeps the polynomials the solver sees shallow; in num mode the value itself."""
+        if self.mode == "num":
+            return x
+        if isinstance(x, numpy.ndarray):
+            return _ew(lambda v: self.let(v, prefix), x)
+        x = SC.lift(x)
+        parts = []
+        for t in (x.re, x.im):
+            if is_const(t):
+                parts.append(t)
+            else:
+                v = self.fresh(prefix)
+                self.axioms.append(v == t)
+                self.defs.append(("let", (v.decl().name(),), (t,)))
+                parts.append(v)
+        return SC(parts[0], parts[1], x.lin)
+
+    def enclose(self, x, name):
+        """Compositional interval cut for CONSTANT values (terms over constant atoms and earlier enclosures): a
+        fresh variable b with lo <= b <= hi replaces the term t, and 'lo <= t <= hi' is recorded as an obligation
+        the solver must prove from the enclosures of t's own variables.  Sound for unsat verdicts (b ranges over a
+        superset of the one real value); models are replayed on the float code as always.  The half-width is a
+        first-order error estimate - the solver, not the estimate, carries the soundness."""
+        if self.mode == "num":
+            if isinstance(x, numpy.ndarray):
+                for idx in numpy.ndindex(x.shape):
+                    if x[idx] != 0 and x[idx] != 1:
+                        self.records.append(("enclosure %s%s" % (name, list(idx)), "holds", True, None, []))
+            else:
+                self.records.append(("enclosure %s" % name, "holds", True, None, []))
+            return x
+        if isinstance(x, numpy.ndarray):
+            out = numpy.empty(x.shape, dtype=object)
+            for idx in numpy.ndindex(x.shape):
+                v = SC.lift(x[idx])
+                out[idx] = v if v.is_const() else self.enclose(v, "%s%s" % (name, list(idx)))
+            return out.view(XArr)
+        x = SC.lift(x)
+        if not hasattr(self, "_box"):
+            self._box = {}
+        val = complete_valuation(self, atom_valuation(self, {}))
+        parts, conds = [], []
+        for t in (x.re, x.im):
+            if is_const(t):
+                parts.append(t)
+                continue
+            vs = [v for v in _vars(t) if not v.startswith("fn:")]
+            v0 = eval_term(t, val)
+            err = 1e-13
+            for vn in vs:
+                dv = self._box.get(vn, 1e-12 if ("(#c" in vn) else 0.0)
+                if dv:
+                    h = 1e-6
+                    val2 = dict(val)
+                    val2[vn] = val[vn] + h
+                    err += abs(eval_term(t, val2) - v0) / h * dv * 1.5
+            scale = 10 ** 12
+            lo = Fraction(math.floor((v0 - err) * scale) - 1, scale)
+            hi = Fraction(math.ceil((v0 + err) * scale) + 1, scale)
+            b = self.fresh("box")
+            self.axioms.append(b >= RV(lo))
+            self.axioms.append(b <= RV(hi))
+            self._box[b.decl().name()] = float(hi - lo) / 2
+            self.defs.append(("let", (b.decl().name(),), (t,)))
+            conds.append(z3.And(t >= RV(lo), t <= RV(hi)))
+            parts.append(b)
+        self.records.append(("enclosure %s" % name, "holds", SymBool(z3.And(*conds)) if conds else True, None, list(self.pc)))
+        return SC(parts[0], parts[1])
+
     # ---- assumptions / obligations
     def assume(self, label, cond):
         if self.mode == "sym":
@@ -2013,6 +2096,8 @@ def complete_valuation(env, val):
             val[names[0]] = math.sqrt(max(a[0], 0.0))
         elif kind == "abs":
             val[names[0]] = abs(a[0])
+        elif kind == "let":
+            val[names[0]] = a[0]
         elif kind == "recip":
             val[names[0]] = 1.0 / a[0] if a[0] != 0 else float("inf")
         elif kind == "gtrig":
